@@ -83,6 +83,7 @@ _C05D_STUBS = [
     'Db::getLocNumber -> symbolic 0 or 2 for ELoc::Z, 2 for ELoc::SIMU (recognised by address); Db::getZVariable / getLocVariable(SIMU) -> TEST or a grid value per symbolic undefined-pattern tables',
     'ANeigh::_xvalid -> symbolic xv[iech_in]; ASpaceObject::getNDim -> 2; OptDbg::query -> false',
     'BiTargetCheckDistance::isOK -> symbolic in[i] and distance d[i] for the sample loaded in T2; two harness subclasses of ABiTargetCheck in _bipts answering symbolic ok1[i], ok2[i]',
+    'the three checker stubs also state the property where they are called (a sample that an earlier filter rejects must not be accepted as a candidate) and answer no for such a sample, so that the candidate count stays the one of the entry pattern (concrete allocation sizes in arrangeInPlace); on correctly filtering code they are just the tables',
     'operator new(size_t, nothrow_t) -> nullptr (std::get_temporary_buffer of std::stable_sort; same stub as C11.e)',
 ]
 for _n, _tiers in ((3, ('quick', 'thorough')), (4, ('thorough',))):
@@ -98,3 +99,4 @@ for _n, _tiers in ((3, ('quick', 'thorough')), (4, ('thorough',))):
       out='identical-to-physical-removal for the kriging results downstream; undefined coordinates; angular sectors; ball-tree pre-selection; NaN as undefined value',
       assumptions=['undefined value is TEST = 1.234e30 (FFFF(x) is x > 1e30 in the NaN-free reading)', 'nmaxi > 0; distances pairwise distinct integer-valued reals (see C06.h)'],
       stubs=_C05D_STUBS)
+
